@@ -29,6 +29,15 @@ Same(expected, got) ==
   IF BagOfSeq(expected) = BagOfSeq(got) THEN TRUE
   ELSE Print(<<"MISMATCH at line", l, "expected", expected, "got", got>>, FALSE)
 
+(* real-parallel run: several threads made the calls of `rows` through ONE shared layer tree; at quiescence the
+   probes' totals (`seen`, one entry per probe / call kind / delivered name) must be exactly what the delivery
+   function gives for each call, summed (purity, Layers!InvPure) *)
+HammerOK(e) ==
+  LET exp == HammerExpected(cfg, e.rows)
+      seen == {e.seen[i] : i \in DOMAIN e.seen}
+  IN IF exp = seen /\ Cardinality(seen) = Len(e.seen) THEN TRUE
+     ELSE Print(<<"HAMMER MISMATCH at line", l, "missing/short", exp \ seen, "unexpected", seen \ exp>>, FALSE)
+
 TraceNext ==
   /\ l <= Len(Rec)
   /\ CASE E.ev = "reset"    -> (IF E.cfg.t = "none"            \* start of a builder history: nothing configured yet
@@ -41,6 +50,7 @@ TraceNext ==
        [] E.ev = "register" -> Register(RegOp(E)) /\ Step /\ Same(last'.out, E.got) /\ E.h = Len(handles')
        [] E.ev = "update"   -> /\ E.h \in DOMAIN handles /\ handles[E.h].kind = E.kind
                                /\ Update(E.h, [u |-> E.u, v |-> E.v, n |-> E.n]) /\ Step /\ Same(last'.out, E.got)
+       [] E.ev = "hammer"   -> HammerOK(E) /\ Step /\ UNCHANGED vars
        [] OTHER -> FALSE      \* panic in the code under test / unknown event: not a behaviour
 
 TraceInit == Init /\ l = 1
